@@ -411,25 +411,26 @@ Definition sc_begin_file : outcome str :=
         end)
   end.
 
-(* scala.rs:409 begin_package_object, 420 begin_package: nothing is opened when the package has
-   no dot *)
+(* scala.rs:413 package_last_segment: the text after the last dot, or the whole name when there is no dot
+   (/repo fix of C10-scala-toplevel-alias) *)
+Definition sc_package_last_segment : str :=
+  match sc_rsplit_once sc_ch_dot (sc_package cfg) with
+  | None => sc_package cfg
+  | Some (_, last) => last
+  end.
+
+(* scala.rs:419 begin_package_object, 425 begin_package: always open a block named by the last segment (before
+   the /repo fix of C10-scala-toplevel-alias nothing was opened when the package name has no dot) *)
 Definition sc_begin_package_object : str :=
-  match sc_rsplit_once sc_ch_dot (sc_package cfg) with
-  | None => []
-  | Some (_, last) => lit "package object " ++ last ++ lit " {" ++ sc_nl ++ sc_nl
-  end.
+  lit "package object " ++ sc_package_last_segment ++ lit " {" ++ sc_nl ++ sc_nl.
 Definition sc_begin_package : str :=
-  match sc_rsplit_once sc_ch_dot (sc_package cfg) with
-  | None => []
-  | Some (_, last) => lit "package " ++ last ++ lit " {" ++ sc_nl ++ sc_nl
-  end.
-(* scala.rs:442 end_package_object, 450 end_package close the block only when the package name contains a dot,
-   i.e. only when begin_package_object / begin_package opened one (/repo fix of C10-scala-package-brace; before
-   it the `}` was printed unconditionally) *)
-Definition sc_end_package_object : str :=
-  if contains_char sc_ch_dot (sc_package cfg) then lit "}" ++ sc_nl else [].
-Definition sc_end_package : str :=
-  if contains_char sc_ch_dot (sc_package cfg) then lit "}" ++ sc_nl else [].
+  lit "package " ++ sc_package_last_segment ++ lit " {" ++ sc_nl ++ sc_nl.
+(* scala.rs:440 end_package_object, 445 end_package always close the block (begin_package_object / begin_package
+   always open one since the /repo fix of C10-scala-toplevel-alias; between the fix of C10-scala-package-brace and
+   that one both sides were conditional on a dot in the package name). `cfg` (&mut self) is not read any more;
+   it is kept as a parameter so that the four functions keep one signature. *)
+Definition sc_end_package_object : str := let _ := cfg in lit "}" ++ sc_nl.
+Definition sc_end_package : str := let _ := cfg in lit "}" ++ sc_nl.
 
 Definition sc_is_empty {A} (l : list A) : bool := match l with [] => true | _ => false end.
 
@@ -469,8 +470,8 @@ Definition sc_decls (pd : parsed) : outcome (list sc_decl * list sc_decl) :=
   do enums <- item_decls (map ItEnum (p_enums pd));
   Ok ((if sc_unsigned_integer_used pd then [sc_unsigned_aliases] else []) ++ aliases, structs ++ enums).
 
-(* fd_header: the version line, `package <parent>` and, when they are written (the section is not
-   empty and the package has a dot), `package object <last>` and `package <last>`;
+(* fd_header: the version line, `package <parent>` (when the package name has a dot) and, when they are
+   written (the section is not empty), `package object <last>` and `package <last>`;
    fd_imports: the Scala back end imports nothing;
    fd_decls: helper aliases, aliases (these two inside the package object), then structs, then
    per enum its helper classes followed by the enum (inside the package);
@@ -481,11 +482,10 @@ Definition sc_file_decls (pd : parsed) : outcome file_decls :=
   Ok {| fd_header := (if sc_no_version_header cfg then [] else [lit "Generated by typeshare " ++ sc_version cfg]) ++
                      match sc_rsplit_once sc_ch_dot (sc_package cfg) with
                      | None => []
-                     | Some (parent, last) =>
-                       [lit "package " ++ parent] ++
-                       (match objs with [] => [] | _ => [lit "package object " ++ last] end) ++
-                       (match pkgs with [] => [] | _ => [lit "package " ++ last] end)
-                     end;
+                     | Some (parent, _) => [lit "package " ++ parent]
+                     end ++
+                     (match objs with [] => [] | _ => [lit "package object " ++ sc_package_last_segment] end) ++
+                     (match pkgs with [] => [] | _ => [lit "package " ++ sc_package_last_segment] end);
         fd_imports := [];
         fd_decls := flat_map sc_obs (objs ++ pkgs);
         fd_helper_defs := flat_map (fun d => match d with SCHelperAliases l => map fst l | _ => [] end) objs |}.
